@@ -215,6 +215,9 @@ def replay_impl(lines, full=True):
     ignored: the implementation finds its own orders)."""
     im = _impl.Impl()
     out = []
+    trig = any(' set_trig ' in l for l in lines)
+    if trig:
+        _impl.install_trigger(True)
     try:
         for line in lines:
             if line.startswith('!digest'):
@@ -236,6 +239,8 @@ def replay_impl(lines, full=True):
                 out.append(res)
     finally:
         im.close()
+        if trig:
+            _impl.install_trigger(False)
     return out
 
 
